@@ -32,7 +32,11 @@ FragPos(d) == << <<0, 0, 0>>, <<d, 0, 0>>, <<1, 0, 0>>, <<0, 1, 0>>, <<d + 1, 0,
 Fragments == {[sp |-> << <<8, 8, 1, 1, 1, 1>> >>, cut2 |-> c, pos |-> <<FragPos(d)>>] : d \in Seps, c \in FragCuts}
            \cup {[sp |-> << <<8, 8, 1, 1, 1, 1>>, <<8, 1, 1, 0, 0, 0>> >>, cut2 |-> c,
                   pos |-> <<FragPos(d), << <<0, 0, 0>>, <<1, 0, 0>>, <<0, 1, 0>>, <<0, 0, 0>>, <<0, 0, 0>>, <<0, 0, 0>> >> >>] : d \in Seps, c \in FragCuts}
-Batches == Lattice \cup Fragments
+\* the same two fragments displaced along the space diagonal (a cutoff is a sphere, not a cube: every Cartesian component of the
+\* separation may be below the cutoff while the distance is above it)
+DiagPos(d) == << <<0, 0, 0>>, <<d, d, d>>, <<1, 0, 0>>, <<0, 1, 0>>, <<d + 1, d, d>>, <<d, d + 1, d>> >>
+DiagFragments == {[sp |-> << <<8, 8, 1, 1, 1, 1>> >>, cut2 |-> c, pos |-> <<DiagPos(d)>>] : d \in {4, 8}, c \in FragCuts \cup {100}}
+Batches == Lattice \cup Fragments \cup DiagFragments
 
 \* ---- Parser.forward ------------------------------------------------------------------
 \* flat atom index (0-based) of atom i (0-based) in row m (0-based)
